@@ -2,7 +2,7 @@ SPECIFICATION MSpec
 CONSTANTS
   Denoms = {"atele", "btok"}
   MaxReward = 2
-  MaxEntries = 2
+  MaxEntries = 3
   MaxPool = 3
   Depth = 6
   InitPools <- MCInitPools
